@@ -16,6 +16,7 @@ type Program struct {
 	Tag   string     // structural tag used in known-finding signatures (set by the generator)
 	Post  []string   // globals holding functions that the host calls after the run (vm.Get + vm.Call; argument 0 if they take one)
 	Meta  string     // generator coordinates, for samples and replay files
+	Raw   string     // when set, the literal source text (families that are not built from the harness AST; no model outcome)
 	Toks  []lang.Tok // when set, the exact token sequence of the source (F1: flat operator chains)
 }
 
@@ -26,7 +27,12 @@ func (p Program) Tokens() []lang.Tok {
 	return lang.Render(p.Prog)
 }
 
-func (p Program) Src() string { return lang.Source(p.Tokens()) }
+func (p Program) Src() string {
+	if p.Raw != "" {
+		return p.Raw
+	}
+	return lang.Source(p.Tokens())
+}
 
 // ------------------------------------------------------------------ F2 control skeletons
 
